@@ -214,6 +214,7 @@ def run(ctx):
                 name = optname(c["meta"]["o"])
                 if c["owner"] not in blame or len(name) < len(blame[c["owner"]]):
                     blame[c["owner"]] = name
+    examples = {}
     for bi, (c, v) in enumerate(bad):
         m = c["meta"]
         name = blame.get(bi) or optname(m["o"])
@@ -222,8 +223,11 @@ def run(ctx):
         site = (("stmt:" if t["k"] == "stmt" else "") + (t.get("f") or t.get("v"))) if t else f"{m['src']}:{'%08x' % zlib.crc32((m.get('base') or m['sql']).encode())}"
         if m["src"] == "comment":
             site = "comment@" + site
-        ctx.violation(f"{v}:{m['dialect'] or 'base'}:{name}:{site}", f"{v} in {m['dialect'] or 'base'} under {optname(m['o'])} for {m['sql']!r}: output {m.get('so')!r}, default {m.get('s0')!r} {m.get('error', '')}",
-                      {"sql": m["sql"], "dialect": m["dialect"], "o": m["o"]})
+        what = f"{v} in {m['dialect'] or 'base'} under {optname(m['o'])} for {m['sql']!r}: output {m.get('so')!r}, default {m.get('s0')!r} {m.get('error', '')}"
+        examples.setdefault(f"{v}:{m['dialect'] or 'base'}:{name}:{site}", what[:400])
+        ctx.violation(f"{v}:{m['dialect'] or 'base'}:{name}:{site}", what, {"sql": m["sql"], "dialect": m["dialect"], "o": m["o"]})
+    with open(os.path.join(ctx.work, "key_examples.json"), "w") as f:
+        json.dump(examples, f, indent=0, sort_keys=True)
     ctx.notes.update({"verdicts": stats, "option_combinations": len(options), "runs": len(cases), "texts": len(texts)})
     for c in cases[:: max(1, len(cases) // 3)][:3]:
         ctx.sample({"sql": c["meta"]["sql"], "dialect": c["meta"]["dialect"], "options": optname(c["meta"]["o"]), "output": c["meta"].get("so")})
